@@ -40,6 +40,9 @@ func (k c14Key) GetCacheKey() string { return k.T }
 
 type c14Struct struct{ A int }
 
+// c14Str is a named string type: not a `string` for the type switch of GetCacheKey.
+type c14Str string
+
 // c14Param mirrors Cache.param.
 type c14Param struct {
 	kind byte // 's' string, 'c' EnforceContext, 'k' c14Key, 'l' []string, 'n' other
@@ -47,6 +50,7 @@ type c14Param struct {
 	ctx  [4]string
 	l    []string
 	n    int
+	ptr  bool // kind 'k' only: the value is a *casbin.EnforceContext built from ctx (s = its key text)
 }
 
 func c14S(s string) c14Param { return c14Param{kind: 's', s: s} }
@@ -66,19 +70,30 @@ func (p c14Param) value() interface{} {
 	case 'c':
 		return casbin.EnforceContext{RType: p.ctx[0], PType: p.ctx[1], EType: p.ctx[2], MType: p.ctx[3]}
 	case 'k':
+		if p.ptr {
+			// a pointer to an EnforceContext is a CacheableParam with the text of the context, but
+			// enforce() does not take it for a context: it is an ordinary request value
+			return &casbin.EnforceContext{RType: p.ctx[0], PType: p.ctx[1], EType: p.ctx[2], MType: p.ctx[3]}
+		}
 		return c14Key{p.s}
 	case 'l':
 		return append([]string(nil), p.l...)
 	default:
-		switch p.n % 4 {
+		switch p.n % 7 {
 		case 0:
 			return 7
 		case 1:
 			return c14Struct{1}
 		case 2:
 			return 2.5
-		default:
+		case 3:
 			return true
+		case 4:
+			return nil
+		case 5:
+			return c14Str("alice")
+		default:
+			return []byte("alice")
 		}
 	}
 }
@@ -148,7 +163,8 @@ func c14KeyOf(ps []c14Param) (string, bool) {
 }
 
 type c14Op struct {
-	kind  string // e inv load clear rm add rms adds en ttl sleep
+	kind  string // e inv load clear rm add rms adds en ttl sleep pt
+	sub   string // pt only: add2 / rm2 (Add/RemoveNamedPolicy("p2", rules[0]...))
 	ps    []c14Param
 	rules [][]string
 	b     bool
@@ -167,6 +183,8 @@ func (o c14Op) sx(now int64) string {
 		return L("en", B(o.b))
 	case "ttl":
 		return L("ttl", I(o.d))
+	case "pt":
+		return L("pt", o.sub, QL(o.rules[0]))
 	}
 	return L(o.kind)
 }
@@ -183,14 +201,27 @@ type c14Wrapper interface {
 	EnableCache(bool)
 	SetExpireTime(time.Duration)
 	EnableAutoSave(bool)
+	AddNamedPolicy(ptype string, params ...interface{}) (bool, error)
+	RemoveNamedPolicy(ptype string, params ...interface{}) (bool, error)
 }
 
 func c14New(synced bool) (c14Wrapper, func(...interface{}) (bool, error)) {
-	m, err := model.NewModelFromString(c14ModelText)
+	return c14NewModel(false, synced)
+}
+
+// c14NewModel builds a wrapper over the basic ACL model (cx=false) or over the model with
+// several request / policy / effect / matcher sections (cx=true); the second result is Enforce
+// of the EMBEDDED enforcer: an uncached twin that always is in the same state.
+func c14NewModel(cx bool, synced bool) (c14Wrapper, func(...interface{}) (bool, error)) {
+	text, stored := c14ModelText, c14StoredText()
+	if cx {
+		text, stored = c14CxModelText, c14CxStoredText()
+	}
+	m, err := model.NewModelFromString(text)
 	if err != nil {
 		panic(err)
 	}
-	a := stringadapter.NewAdapter(c14StoredText())
+	a := stringadapter.NewAdapter(stored)
 	if synced {
 		e, err := casbin.NewSyncedCachedEnforcer(m, a)
 		if err != nil {
@@ -214,6 +245,7 @@ type c14Case struct {
 	ops    []c14Op
 	timed  bool
 	tag    string
+	cx     bool // the model with several sections (Cache.cx_ fixture)
 }
 
 type c14Result struct {
@@ -276,6 +308,8 @@ func c14RuleOf(ps []c14Param) ([]string, bool) {
 // acl_op_ok of Cache.v
 func c14OpOK(synced bool, o c14Op) bool {
 	switch o.kind {
+	case "pt":
+		return false
 	case "add":
 		if !synced {
 			return false
@@ -349,9 +383,10 @@ const (
 
 func c14Run(cs *c14Case) *c14Result {
 	res := &c14Result{}
-	w, under := c14New(cs.synced)
+	w, under := c14NewModel(cs.cx, cs.synced)
 	var opsSx []string
 	listed := true
+	quiet := true // no mutator of the embedded enforcer was called since the cache was last empty
 	start := time.Now()
 	var stamps [][2]int64 // clock before and after every Enforce call so far
 	ttls := map[int]bool{}
@@ -401,11 +436,21 @@ func c14Run(cs *c14Case) *c14Result {
 				}
 				seenKeys[k] = true
 			}
-			if listed && c14ReqOK(o.ps) && out != "panic" {
+			// the property's own predicate, inside the guards of the theorems (collisions of keys are
+			// kept out of the stream as a whole):
+			//   C14_transparent_acl_general / C14_transparent_cx: a request without a leading context,
+			//     not all-empty, after listed invalidating operations only;
+			//   C14_transparent_quiet: ANY request (contexts, CacheableParam, non-cacheable values)
+			//     while no mutator was called since the cache was last empty.
+			if ((listed && c14ReqOK(o.ps)) || quiet) && out != "panic" {
 				ud, uerr := under(c14Values(o.ps)...)
 				if want := c14Dec(ud, uerr); want != out {
+					why := "after listed invalidating operations only"
+					if quiet {
+						why = "with no mutator called since the cache was last empty"
+					}
 					res.directs = append(res.directs, [2]string{
-						fmt.Sprintf("step %d: wrapper Enforce %s but embedded enforcer %s after listed invalidating operations only", step, out, want), ""})
+						fmt.Sprintf("step %d: wrapper Enforce %s but embedded enforcer (uncached twin, same state) %s %s", step, out, want, why), ""})
 				}
 			}
 		case "inv":
@@ -433,6 +478,19 @@ func c14Run(cs *c14Case) *c14Result {
 				ttls[o.d] = true
 			}
 			out = c14Ret(true, nil)
+		case "pt":
+			vals := c14Values(c14Strs(o.rules[0]))
+			if o.sub == "add2" {
+				out = c14Call(func() string { return c14Ret(w.AddNamedPolicy("p2", vals...)) })
+			} else {
+				out = c14Call(func() string { return c14Ret(w.RemoveNamedPolicy("p2", vals...)) })
+			}
+		}
+		switch o.kind {
+		case "rm", "add", "rms", "adds", "pt":
+			quiet = false
+		case "inv", "load", "clear":
+			quiet = true
 		}
 		if out == "panic" {
 			res.panicked = true
@@ -464,7 +522,11 @@ func c14Run(cs *c14Case) *c14Result {
 	for i, p := range cs.probes {
 		probes[i] = c14ParamsSx(p)
 	}
-	res.body = v + " " + QLL(c14Stored) + " " + L(probes...) + " " + L(opsSx...)
+	if cs.cx {
+		res.body = "c" + v + " " + QLL(c14CxStored1) + " " + QLL(c14CxStored2) + " " + L(probes...) + " " + L(opsSx...)
+	} else {
+		res.body = v + " " + QLL(c14Stored) + " " + L(probes...) + " " + L(opsSx...)
+	}
 	return res
 }
 
@@ -540,8 +602,14 @@ func (g c14Gen) rule(focus [][]string) []string {
 func (g c14Gen) decorate(r []string) []c14Param {
 	ps := c14Strs(r)
 	switch x := g.c.Rng.Intn(100); {
-	case x < 30: // default EnforceContext in front
+	case x < 24: // default EnforceContext in front
 		ps = append([]c14Param{{kind: 'c', ctx: [4]string{"r", "p", "e", "m"}}}, ps...)
+	case x < 32: // a context that differs from the default one in exactly one name (a section
+		// the model does not have: the embedded enforcer answers with an error)
+		ctx := [4]string{"r", "p", "e", "m"}
+		i := g.c.Rng.Intn(4)
+		ctx[i] = g.pick([]string{ctx[i] + "2", "", ctx[i] + "-", "x"})
+		ps = append([]c14Param{{kind: 'c', ctx: ctx}}, ps...)
 	case x < 38: // a context naming sections the model does not have
 		ps = append([]c14Param{{kind: 'c', ctx: [4]string{"r2", "p2", "e2", "m2"}}}, ps...)
 	case x < 60: // another CacheableParam somewhere
@@ -552,7 +620,7 @@ func (g c14Gen) decorate(r []string) []c14Param {
 	case x < 95: // a parameter that is not cacheable
 		if len(ps) > 0 {
 			i := g.c.Rng.Intn(len(ps))
-			ps[i] = c14Param{kind: 'n', n: g.c.Rng.Intn(4)}
+			ps[i] = c14Param{kind: 'n', n: g.c.Rng.Intn(7)}
 		}
 	default:
 		if len(ps) > 0 {
